@@ -26,6 +26,11 @@ pub trait NamingContext {
 
     /// Apply serde naming convention transformations
     fn apply_naming_convention(&self, field_name: &str, convention: RenameRule) -> String {
+        // serde_rename_rule lower-cases the first *byte* for camelCase and panics when the
+        // name starts with a multi-byte character (`größe`, `ünï_cmd`): do that step per char
+        if matches!(convention, RenameRule::CamelCase) && !field_name.is_char_boundary(1) {
+            return lowercase_first_char(&RenameRule::PascalCase.apply_to_field(field_name));
+        }
         convention.apply_to_field(field_name)
     }
 
@@ -86,7 +91,11 @@ pub trait NamingContext {
         if let Some(rename) = variant_rename {
             rename.to_string()
         } else if let Some(convention) = enum_rename_all {
-            convention.apply_to_variant(variant_name)
+            if matches!(convention, RenameRule::CamelCase) && !variant_name.is_char_boundary(1) {
+                lowercase_first_char(variant_name)
+            } else {
+                convention.apply_to_variant(variant_name)
+            }
         } else {
             variant_name.to_string()
         }
@@ -137,6 +146,15 @@ pub trait NamingContext {
         // Always use TypeScript conventions (PascalCase for types)
         // Command-level rename_all doesn't affect the type name
         self.apply_naming_convention(name, RenameRule::PascalCase)
+    }
+}
+
+/// Lower-case the first character (not the first byte) of a name
+fn lowercase_first_char(name: &str) -> String {
+    let mut chars = name.chars();
+    match chars.next() {
+        Some(first) => first.to_lowercase().collect::<String>() + chars.as_str(),
+        None => String::new(),
     }
 }
 
